@@ -324,6 +324,17 @@ c23_tab:
 c23_tgt: .byte 1, 2
 """
 
+# Degenerate but compiler-producible inputs: functions that are only __builtin_unreachable() (zero-size .text.* sections that
+# still carry an FDE), an empty function, a zero-size data object; all reachable through a pointer table.
+EDGE_C = r"""
+void unreach1(void) { __builtin_unreachable(); }
+void unreach2(int x) { (void)x; __builtin_unreachable(); }
+void empty_fn(void) {}
+char zero_size_obj[0] __attribute__((section(".data.zero")));
+void (*edge_tab[])(void) = { unreach1, (void (*)(void))unreach2, empty_fn };
+char *edge_zero = zero_size_obj;
+"""
+
 KINDS = ["static", "static-pie", "pie", "dyn-nonpie", "shared"]
 SINGLE_OPTS = [[], ["-z", "pack-relative-relocs"], ["--hash-style=gnu"], ["--hash-style=sysv"], ["--hash-style=both"], ["--build-id=none"],
                ["--build-id=fast"], ["--build-id=sha1"], ["--build-id=uuid"], ["--eh-frame-hdr"], ["--no-eh-frame-hdr"], ["--strip-all"],
@@ -344,7 +355,11 @@ def build_objects(d):
         sub = os.path.join(d, flavor)
         os.makedirs(sub, exist_ok=True)
         tls_flags = [x for x in cf if x.startswith("-D")] + ["-fPIC"]
-        o_ = [lu.cc_obj(sub, "main", MAIN_C, flags=common + cf),
+        main_c = "extern void (*edge_tab[])(void); extern char *edge_zero;\n" + MAIN_C.replace(
+            "return s + ifn_user(x) + tls_user(x);", "s += (edge_tab[2] != 0) + (edge_zero != 0) - 2; return s + ifn_user(x) + tls_user(x);")
+        o_ = [lu.cc_obj(sub, "main", main_c, flags=common + cf),
+              lu.cc_obj(sub, "edge", EDGE_C, flags=[x for x in common if x != "-O1"] + cf + ["-O2", "-ffunction-sections", "-fdata-sections",
+                                                                                         "-fasynchronous-unwind-tables"]),
               lu.cc_obj(sub, "ifunc", IFUNC_C, flags=common + cf),
               lu.cc_obj(sub, "tls", TLS_C, flags=common + tls_flags),
               lu.cc_obj(sub, "tlsdesc", TLSDESC_C, flags=common + tls_flags + ["-mtls-dialect=gnu2"]),
